@@ -873,9 +873,12 @@ impl<R: BufRead + Seek> WebPDecoder<R> {
     pub fn reset_animation(&mut self) {
         assert!(self.is_animated());
 
-        self.animation.next_frame = 0;
-        self.animation.next_frame_start = self.chunks.get(&WebPRiffChunk::ANMF).unwrap().start - 8;
-        self.animation.dispose_next_frame = true;
+        // start again from a pristine state: the canvas is rebuilt from the background colour and no
+        // previous-frame rectangle is remembered, exactly as in a freshly created decoder
+        self.animation = AnimationState {
+            next_frame_start: self.chunks.get(&WebPRiffChunk::ANMF).unwrap().start - 8,
+            ..Default::default()
+        };
     }
 }
 
